@@ -30,6 +30,9 @@ func init() {
 		Gen:      c15Gen,
 		Exec:     c15Exec,
 		Class: func(in Fields) string {
+			if in.S(5) != "" {
+				return fmt.Sprintf("%s:fg%d:bg%d:gomaxprocs1=%s", in.S(5), in.I(2), in.I(3), in.S(6))
+			}
 			t := "notags"
 			if strings.HasPrefix(in.S(0), "@") {
 				t = "tags"
@@ -106,11 +109,49 @@ func c15Scribble(r *Rand, l *client.Line) {
 	}
 }
 
+// the lone handler of a set: record, then IMMEDIATELY overwrite everything reachable from the
+// *Line — every argument, the slice itself, every tag, and the scalar fields of the struct
+func c15ScribbleAll(l *client.Line) {
+	for i := range l.Args {
+		l.Args[i] = "LONE"
+	}
+	l.Args = append(l.Args, "lone-appended")
+	if l.Tags != nil {
+		for k := range l.Tags {
+			l.Tags[k] = "lone"
+		}
+		l.Tags["lone-key"] = "lone"
+	}
+	l.Nick, l.Ident, l.Host, l.Src, l.Raw = "lone", "lone", "lone", "lone", "lone"
+	l.Cmd = "LONE"
+}
+
+// modes (field 5): "" = free running (plus a late background handler);
+// "lonefg": the foreground set has exactly ONE handler, which scribbles over everything right after
+//           recording and then closes a channel; the background handlers record only after that;
+// "lonebg": the same with the roles of the sets exchanged (no late handler in the lone modes).
+// field 6 = "1": the case runs with GOMAXPROCS(1), so that goroutines started by the dispatchers
+// only get to evaluate line.Copy() after the code that started them has blocked or finished.
 func c15Exec(in Fields) Fields {
 	line, verb, nfg, nbg := in.S(0), in.S(1), in.I(2), in.I(3)
 	seed := uint64(in.I(4))
+	mode := in.S(5)
+	if in.S(6) == "1" {
+		defer runtime.GOMAXPROCS(runtime.GOMAXPROCS(1))
+	}
 	c := c15ws.Conn
 	total := nfg + nbg + 1
+	if mode != "" {
+		total = nfg + nbg
+	}
+	scribbled := make(chan struct{}) // closed by the lone handler when it has finished scribbling
+	loneIdx := -1
+	switch mode {
+	case "lonefg":
+		loneIdx = 0
+	case "lonebg":
+		loneIdx = nfg
+	}
 	snaps := make([]c15Snap, total)
 	var mu sync.Mutex
 	var wg sync.WaitGroup
@@ -125,6 +166,23 @@ func c15Exec(in Fields) Fields {
 				return
 			}
 			r := &Rand{s: seed*1000003 + uint64(idx)}
+			if mode != "" {
+				if idx == loneIdx {
+					s := c15Take(l)
+					c15ScribbleAll(l)
+					close(scribbled)
+					mu.Lock()
+					snaps[idx] = s
+					mu.Unlock()
+					wg.Done()
+					return
+				}
+				// a handler of the OTHER set: look at the line only after the lone one has scribbled
+				select {
+				case <-scribbled:
+				case <-time.After(2 * time.Second):
+				}
+			}
 			if late {
 				time.Sleep(time.Duration(2+r.Intn(4)) * time.Millisecond)
 			} else if r.Chance(30) {
@@ -144,7 +202,9 @@ func c15Exec(in Fields) Fields {
 	for i := 0; i < nbg; i++ {
 		rems = append(rems, c.HandleBG(verb, mk(nfg+i, false)))
 	}
-	rems = append(rems, c.HandleBG(verb, mk(nfg+nbg, true)))
+	if mode == "" {
+		rems = append(rems, c.HandleBG(verb, mk(nfg+nbg, true)))
+	}
 
 	c15serial++
 	marker := fmt.Sprintf("PONG :c15m%d\r\n", c15serial)
@@ -153,9 +213,13 @@ func c15Exec(in Fields) Fields {
 	st.waitWire(marker, 5*time.Second)
 	done := make(chan struct{})
 	go func() { wg.Wait(); close(done) }()
+	patience := 2 * time.Second
+	if mode != "" {
+		patience = time.Second // the sync marker has passed and nobody sleeps in these modes
+	}
 	select {
 	case <-done:
-	case <-time.After(2 * time.Second):
+	case <-time.After(patience):
 	}
 	for _, rm := range rems {
 		rm.Remove()
@@ -244,6 +308,16 @@ func c15Gen(r *Rand, tier string, scale int, emit func(Fields)) {
 				b.WriteString(" " + c15Word(r))
 			}
 		}
-		emit(F(b.String(), verb, r.Range(1, 6), r.Range(1, 6), r.Intn(1000000)))
+		// in EVERY run: the set-size combinations in which one set has a lone handler
+		// {fg:1,bg:1} (both roles), {fg:1,bg:>=2}, {fg:>=2,bg:1}, {fg:1,bg:0}, {fg:0,bg:1}, each with
+		// and without GOMAXPROCS(1); the remaining cases run free
+		if i < 72 {
+			combos := [][3]interface{}{{"lonefg", 1, 1}, {"lonebg", 1, 1}, {"lonefg", 1, r.Range(2, 5)},
+				{"lonebg", r.Range(2, 5), 1}, {"lonefg", 1, 0}, {"lonebg", 0, 1}}
+			cb := combos[i%6]
+			emit(F(b.String(), verb, cb[1].(int), cb[2].(int), r.Intn(1000000), cb[0].(string), (i/6)%2))
+			continue
+		}
+		emit(F(b.String(), verb, r.Range(1, 6), r.Range(1, 6), r.Intn(1000000), "", 0))
 	}
 }
